@@ -67,7 +67,7 @@ def body_inproc(cube, **kw):
     via = idx(kw['via'], 3)      # 0: direct API twice, 1: wrapper with .mar, 2: wrapper with .mal
     with notrace(), reclimit():
         spec, lg, lcf, m, assets = build(*c)
-        md0 = m._to_dict()
+        md0 = copy.deepcopy(m._to_dict())      # _to_dict hands out the model's own entry-point lists
         sp0 = copy.deepcopy(lg._lang_spec)
         g1 = full_graph(lg, m)
         d1 = g1._to_dict()
